@@ -2,13 +2,14 @@ SPECIFICATION Spec
 CONSTANTS
   Vers = {"sasl", "sasl2"}
   Mechs = {"PLAIN", "DIGEST-MD5"}
-  Creds = {"right", "wrongPw", "ownEmpty", "otherUser", "victimEmpty", "unknownPw", "unknownEmpty", "embedEmpty", "embedBareEmpty", "embedSlashEmpty", "embedKnown", "malformed", "empty"}
+  Creds = {"right", "wrongPw", "ownEmpty", "otherUser", "victimEmpty", "victimOwnSecret", "unknownPw", "unknownEmpty", "embedEmpty", "embedBareEmpty", "embedSlashEmpty", "embedKnown", "malformed", "empty"}
   BindRes = {"ra"}
   Kinds = {"message", "presence", "iq"}
   Froms = {"absent", "own", "ownBare", "victim", "other", "ownOtherRes", "ownSibling", "ownCase", "ownSlash", "ownPrefix", "ownDomain", "ownLookalike"}
   Tos = {"victimBare", "victimFull", "domain", "absent"}
   Stanzas <- OneStanza
   MaxPending = 1
+  MaxRetry = 0
   MaxHist = 99
 VIEW GenView
 ACTION_CONSTRAINT EmitOneAuth
